@@ -1306,7 +1306,7 @@ FINDINGS = [
     {"status": "fixed", "key": "simplexhol:bad-witness:[[2,0,-1],[0,2,-2],[-2,0,-1]]/gll", "commit": "e8753aa",
      "what": "SimplexHOLWrapper.add_ineq named the slack variable after Simplex.index-1 although Simplex re-uses the slack of an equal "
              "linear form: 2*x0>=1, 2*x1>=2, 2*x0<=-1 was answered satisfiable with x0=1/2 (bound asserted on the wrong variable)"},
-    {"status": "fixed", "key": "omegahol:foreign-hypothesis", "commit": "fixes/C16-4.patch",
+    {"status": "fixed", "key": "omegahol:foreign-hypothesis", "commit": "6cc07e8",
      "what": "OmegaHOL.solve() returned the contradiction from the omega normal forms of the given inequalities, not from the given "
              "ones: [x < y, y < x] gave 0 <= -1*x + 1*y + -1, 0 <= 1*x + -1*y + -1 |- false; even 0 <= x came back as 0 <= 1 * x"},
 ]
